@@ -139,7 +139,9 @@ def temperature(ctx, rng):
         return
     T0, Tf = res
     p = ref.from_raw(kind, dict(m))
-    if not p.vars():
+    # "without variables" is syntactic: no key names a variable (a raw dict whose differently ordered duplicate keys
+    # cancel still names variables; only the ordering clause is demanded of it)
+    if not any(k for k in m):
         if (T0, Tf) != (0, 0):
             ctx.violation(tag + "no-variables-not-zero", "model without variables gives %r" % (res,), w)
         return
